@@ -111,7 +111,6 @@ func genCase(t *rapid.T) Case {
 	return c
 }
 
-
 // Gen is the exported generator (used by C05/C06).
 func Gen(t *rapid.T) Case { return genCase(t) }
 
